@@ -529,13 +529,13 @@ pub mod value {
                     write!(f, "\"")
                 }
                 Vec(vs) => {
-                    if let Some(Nat8(_)) = vs.first() {
+                    // only here for completeness. The deserializer should generate IDLValue::Blob instead.
+                    // A vector the parser has not type checked yet can mix nat8 with other values.
+                    if !vs.is_empty() && vs.iter().all(|v| matches!(v, Nat8(_))) {
                         write!(f, "blob \"")?;
                         for v in vs.iter() {
-                            match v {
-                                // only here for completeness. The deserializer should generate IDLValue::Blob instead.
-                                Nat8(v) => write!(f, "{}", &pp_char(*v))?,
-                                _ => unreachable!(),
+                            if let Nat8(v) = v {
+                                write!(f, "{}", &pp_char(*v))?;
                             }
                         }
                         write!(f, "\"")
